@@ -60,6 +60,9 @@ class Contract:
         self.decreases = None
         self.ghost_locals = {}
         self.callables = {}
+        self.sites = []            # (class name, clause name, expr): checked after each construction of that class
+        self.site_stores = []      # (attribute, clause name, expr): checked after each store to that attribute
+        self.global_invariants = []  # (name, expr): assumed at entry and re-assumed after every havoc (slice mode)
 
 
 class Ghost:
@@ -91,6 +94,7 @@ class Sidecar:
         self.consts = {}
         self.dict_records = set()
         self.load_modules = []
+        self.profiles = {}          # name -> list of clause statements (reusable contract fragments)
         self.impl_contracts = {}   # qual -> contract of the implementation itself when a @family has the same name
 
 
@@ -155,6 +159,19 @@ def _parse_clauses(body, c, sc, loop=None):
             loop.body_hints.extend(a)
         elif fn == 'end_hint':
             loop.end_hints.extend(a)
+        elif fn == 'use_profile':
+            prof = sc.profiles.get(_s(a[0]))
+            if prof is None:
+                raise ValueError('%s: unknown profile %s' % (c.file, _s(a[0])))
+            _parse_clauses(prof['body'], c, sc, loop)
+            for k, v in prof['opts'].items():
+                c.opts.setdefault(k, v)
+        elif fn == 'site':
+            c.sites.append((_s(a[0]), _s(a[1]), a[2]))
+        elif fn == 'site_store':
+            c.site_stores.append((_s(a[0]), _s(a[1]), a[2]))
+        elif fn == 'global_invariant':
+            c.global_invariants.append((_s(a[0]), a[1]))
         elif fn == 'callable':
             for k, v in _kw(call).items():
                 c.callables[k] = _s(v)
@@ -218,6 +235,9 @@ def load_file(path, sc):
             dec = st.decorator_list[0]
             dname = dec.func.id if isinstance(dec, ast.Call) else dec.id
             kws = _kw(dec) if isinstance(dec, ast.Call) else {}
+            if dname == 'profile':
+                sc.profiles[_s(dec.args[0])] = dict(body=st.body, opts={k: _s(v) for k, v in kws.items()})
+                continue
             if dname == 'ghost':
                 g = Ghost(st.name)
                 g.file = path
